@@ -177,3 +177,20 @@ func VfC09_Limit() {
 		nd.Assert(len(l.conns) == len(live) && l.stats.CxActive.Value() == uint64(len(live)), "the registry and the active gauge agree with the served connections")
 	}
 }
+
+// VfC09_LimitConcurrent: two connections arriving at the same time at a listener that has room
+// for one: exactly one is admitted (the limit check and the registration are one atomic step).
+func VfC09_LimitConcurrent() {
+	nd.ConcreteClock(true)
+	l := vfNewListener(1, nil)
+	l.ln = &vfLis{queue: make(chan net.Conn, 1), closed: make(chan struct{})}
+	var ok [2]bool
+	for i := 0; i < 2; i++ {
+		i := i
+		go func() { ok[i] = l.addConn(&vfCliConn{closed: make(chan struct{})}) }()
+	}
+	nd.Quiesce()
+	nd.Assert(ok[0] != ok[1], "of two simultaneous arrivals at a listener with room for one, exactly one is admitted")
+	nd.Assert(len(l.conns) == 1, "the number of served connections never exceeds the limit")
+	nd.Cover("raced")
+}
